@@ -2,9 +2,46 @@
 each that exactly one active set satisfies KKT and emits the exact minimiser (Cramer's rule in rationals).  The driver
 runs nnls_normal_block3 / _block / _block_updown / nnls_lawson_hanson (normal and least-squares form) on every system
 and on exact power-of-two diagonal rescalings, and on random dense/sparse, degenerate and badly scaled systems (n <= 12
-with an active-set reference in long double, n <= 200 through the KKT residual); Trace_Nnls judges each result."""
+with an active-set reference in long double, n <= 200 through the KKT residual); Trace_Nnls judges each result.
+The algorithm of nnls_normal_block3 + walk_descents is itself a TLA+ step machine (spec/Block3.tla, model-checked by
+MC_Block3: termination, optimality at termination, monotone descent on all enumerated systems); the hook
+photospline_verif_block3 records every phase of the real solver and Trace_Block3 requires each record to be a step of
+the model from the model's current state."""
 import os, json, shutil, random
 import vlib
+
+
+def _block3_traces(ck, wd, exe, sf, nsys, tier, seed):
+    # every recorded phase of the real solver must be a step of Block3 from the model's current state (Trace_Block3)
+    stride = 8 if tier == "quick" else 1
+    tr = os.path.join(wd, "block3.ndjson")
+    rc, so, err, _ = vlib.run_driver(exe, ["trace", sf, str(stride), str(seed % stride), tr], timeout=1500, env={"OMP_NUM_THREADS": "2"})
+    if rc != 0:
+        cls = "hang" if "HANG" in err else "crash"
+        ck.violation({"class": cls, "mode": "trace"}, {"what": "nnls driver ended abnormally while tracing block3 (%s)" % cls, "stderr": err[-2500:]})
+        return 0
+    lines = [l for l in open(tr)]
+    nexec = sum(1 for l in lines if l.startswith('{"e":"start"'))
+    if nexec == 0 or not any(l.startswith('{"e":"release"') for l in lines):
+        # the hook is not compiled in / not called: the binding is gone - that is an infrastructure problem, not a verdict
+        raise vlib.Infra("no block3 trace records: hook photospline_verif_block3 missing from src/fitter/nnls.c?")
+    rep = []
+    r2 = vlib.run_tlc("Trace_Block3", "Trace_Block3.cfg", tag="trb3", workers=1, env={"TRACE": tr}, sink=rep.append, timeout=3300, xmx="8g")
+    ck.add_tlc("Trace_Block3 (%d executions, %d records)" % (nexec, len(lines)), r2)
+    if r2.violated == "TInv":
+        ck.violation({"class": "block3-state-violates-design-invariant"}, {"what": "a state the real solver passed through violates NonNegative / Consistent / Optimal", "tlc": r2.out[-2500:]})
+        return nexec
+    if r2.rc != 0 or not rep:
+        raise vlib.Infra("Trace_Block3 failed:\n" + r2.out[-2000:])
+    best = min(rep, key=lambda r: len(r["deviations"]))
+    for d in best["deviations"]:
+        k = d["line"] - 1          # find the execution this record belongs to
+        while k > 0 and not lines[k].startswith('{"e":"start"'):
+            k -= 1
+        ck.violation({"class": "block3-" + d["kind"], "phase": d["e"], "model_pc": d["pc"]},
+                     {"what": "nnls_normal_block3 took a step that the algorithm of Block3.tla does not have", "system": json.loads(lines[k]),
+                      "record": json.loads(lines[d["line"] - 1]), "previous_records": [json.loads(x) for x in lines[max(k, d["line"] - 4): d["line"] - 1]]})
+    return nexec
 
 
 def run(pid, tier, seed, replay=None):
@@ -44,6 +81,20 @@ def run(pid, tier, seed, replay=None):
                 ev = rows[d["line"] - 1]
                 ck.violation({"class": d["kind"], "solver": ev["solver"], "mode": mode, "n_class": "small" if ev["n"] <= 3 else ("medium" if ev["n"] <= 12 else "large")},
                              {"what": "solver result violates C11: " + d["kind"], "event": {k: ev[k] for k in ev if k not in ("x", "g")} if ev["n"] > 12 else ev})
+        # --- the algorithm as a TLA+ step machine: termination, optimality at termination, monotone descent
+        r3 = vlib.run_tlc("MC_Block3", "MC_Block3_quick.cfg" if tier == "quick" else "MC_Block3.cfg", tag="mcb3", timeout=3300, xmx="10g")
+        if r3.rc != 0 or r3.violated:
+            raise vlib.Infra("MC_Block3 did not model-check cleanly: %s\n%s" % (r3.violated, r3.out[-2000:]))
+        ck.add_tlc("MC_Block3 (%s)" % ("n <= 2, wide catalogue" if tier == "quick" else "n <= 3"), r3)
+        if tier != "quick":
+            # vacuity guard: with the original termination test the same invariant has a counterexample
+            r4 = vlib.run_tlc("MC_Block3", "MC_Block3_original.cfg", tag="mcb3o", timeout=1500, xmx="10g")
+            ck.cov["original_termination_test_counterexample_found"] = r4.violated == "Inv"
+            if r4.violated != "Inv":
+                raise vlib.Infra("MC_Block3_original.cfg no longer finds the known counterexample: the Optimal invariant may be vacuous")
+        # --- the algorithm itself: per-phase trace of nnls_normal_block3 (hook in nnls.c) against spec/Block3.tla
+        ntr = _block3_traces(ck, wd, exe, sf, len(systems), tier, seed)
+        ck.cov["block3_executions_trace_validated"] = ntr
         ck.cov["traces_validated_against_impl"] = len(rows_all)
         ck.cov["evaluations"] = len(rows_all)
         ck.cov["distinct_nontrivial"] = len(systems) + (300 if tier == "quick" else 6000)
